@@ -125,6 +125,13 @@ static sg4::ExecPtr mkexec(const std::vector<std::string>& a, size_t from, const
     else if (a[i].rfind("threads=", 0) == 0)
       x->set_thread_count(atoi(a[i].substr(8).c_str()));
   }
+  bool hostgiven = false, nohost = false;
+  for (size_t i = from + 1; i < a.size(); i++) {
+    hostgiven = hostgiven || a[i].rfind("host=", 0) == 0;
+    nohost    = nohost || a[i] == "nohost";
+  }
+  if (!hostgiven && !nohost)
+    x->set_host(sg4::this_actor::get_host());
   return x;
 }
 
@@ -139,6 +146,21 @@ static std::string optarg(const std::vector<std::string>& a, const char* key, co
 static bool hasopt(const std::vector<std::string>& a, const char* key)
 {
   return !optarg(a, key, "\x01").empty() && optarg(a, key, "\x01") != "\x01";
+}
+
+static void typed_wait_for(Slot& s, double t)
+{
+  // call through the typed handle, as user code does (Comm and Mess override wait_for)
+  if (s.kind == "comm_s" || s.kind == "comm_r" || s.kind == "sendto")
+    boost::static_pointer_cast<sg4::Comm>(s.act)->wait_for(t);
+  else if (s.kind == "mess_s" || s.kind == "mess_r")
+    boost::static_pointer_cast<sg4::Mess>(s.act)->wait_for(t);
+  else if (s.kind == "exec")
+    boost::static_pointer_cast<sg4::Exec>(s.act)->wait_for(t);
+  else if (s.kind == "io")
+    boost::static_pointer_cast<sg4::Io>(s.act)->wait_for(t);
+  else
+    s.act->wait_for(t);
 }
 
 void do_op(Ctx& c, int idx, const Op& op)
@@ -212,14 +234,19 @@ void do_op(Ctx& c, int idx, const Op& op)
     auto* p = mkpayload(c, idx, num(a[1]));
     kv(r, "payload", p->id);
     exc = guarded([&] {
-      auto comm = mboxes.at(a[0])->put_init(p, (uint64_t)num(a[1]));
-      comm->set_name(slotname);
-      if (hasopt(a, "rate"))
-        comm->set_rate(num(optarg(a, "rate")));
-      if (hasopt(a, "timeout"))
-        comm->wait_for(num(optarg(a, "timeout")));
+      if (hasopt(a, "rate") || hasopt(a, "onesimcall")) { // unstarted comm waited directly: one isend+wait simcall
+        auto comm = mboxes.at(a[0])->put_init(p, (uint64_t)num(a[1]));
+        comm->set_name(slotname);
+        if (hasopt(a, "rate"))
+          comm->set_rate(num(optarg(a, "rate")));
+        if (hasopt(a, "timeout"))
+          comm->wait_for(num(optarg(a, "timeout")));
+        else
+          comm->wait();
+      } else if (hasopt(a, "timeout"))
+        mboxes.at(a[0])->put(p, (uint64_t)num(a[1]), num(optarg(a, "timeout")));
       else
-        comm->wait();
+        mboxes.at(a[0])->put(p, (uint64_t)num(a[1]));
     });
   } else if (k == "put_async" || k == "put_init") { // SLOT MBOX SIZE [rate=R]
     auto* p = mkpayload(c, idx, num(a[2]));
@@ -358,12 +385,12 @@ void do_op(Ctx& c, int idx, const Op& op)
       exc = guarded([&] { s->act->start(); });
   } else if (k == "wait") {
     if (auto* s = need_slot(a[0])) {
-      exc = guarded([&] { s->act->wait(); });
+      exc = guarded([&] { typed_wait_for(*s, -1.0); });
       after_wait(r, *s, exc);
     }
   } else if (k == "wait_for") {
     if (auto* s = need_slot(a[0])) {
-      exc = guarded([&] { s->act->wait_for(num(a[1])); });
+      exc = guarded([&] { typed_wait_for(*s, num(a[1])); });
       after_wait(r, *s, exc);
     }
   } else if (k == "wait_for_or_cancel") {
@@ -522,39 +549,46 @@ void do_op(Ctx& c, int idx, const Op& op)
     } else
       skip = true;
   } else if (k == "kill") {
-    if (actors.count(a[0]))
+    if (actors.count(a[0])) {
+      kvi(r, "target", actors.at(a[0])->get_pid());
       actors.at(a[0])->kill();
-    else
+    } else
       skip = true;
   } else if (k == "kill_all") {
     sg4::Actor::kill_all();
   } else if (k == "join") { // A [T]
     if (actors.count(a[0])) {
+      sg4::ActorPtr tgt = actors.at(a[0]); // the incarnation known at call time
+      kvi(r, "target", tgt->get_pid());
       if (a.size() > 1)
-        actors.at(a[0])->join(num(a[1]));
+        tgt->join(num(a[1]));
       else
-        actors.at(a[0])->join();
+        tgt->join();
     } else
       skip = true;
   } else if (k == "daemonize") {
     c.self->daemonize();
   } else if (k == "set_kill_time") { // A T
-    if (actors.count(a[0]))
+    if (actors.count(a[0]) && !deadpids.count(actors.at(a[0])->get_pid())) {
+      kvi(r, "target", actors.at(a[0])->get_pid());
       actors.at(a[0])->set_kill_time(num(a[1]));
+    }
     else
       skip = true;
   } else if (k == "suspend") {
-    if (actors.count(a[0]))
+    if (actors.count(a[0]) && !deadpids.count(actors.at(a[0])->get_pid())) {
+      kvi(r, "target", actors.at(a[0])->get_pid());
       actors.at(a[0])->suspend();
-    else
+    } else
       skip = true;
   } else if (k == "resume") {
-    if (actors.count(a[0]))
+    if (actors.count(a[0]) && !deadpids.count(actors.at(a[0])->get_pid())) {
+      kvi(r, "target", actors.at(a[0])->get_pid());
       actors.at(a[0])->resume();
-    else
+    } else
       skip = true;
   } else if (k == "set_host") { // A H
-    if (actors.count(a[0]))
+    if (actors.count(a[0]) && !deadpids.count(actors.at(a[0])->get_pid()))
       exc = guarded([&] { actors.at(a[0])->set_host(hosts.at(a[1])); });
     else
       skip = true;
@@ -571,9 +605,11 @@ void do_op(Ctx& c, int idx, const Op& op)
     int kk          = atoi(a[0].c_str());
     std::string aid = c.aid;
     int inc         = c.inc;
-    sg4::this_actor::on_exit([aid, inc, kk](bool failed) {
-      emit("S %ld %a on_exit aid=%s inc=%d k=%d failed=%d", SEQ++, now(), aid.c_str(), inc, kk, (int)failed);
+    long mypid = c.self->get_pid();
+    sg4::this_actor::on_exit([aid, inc, kk, mypid](bool failed) {
+      emit("S %ld %a on_exit aid=%s inc=%d k=%d failed=%d regpid=%ld", SEQ++, now(), aid.c_str(), inc, kk, (int)failed, mypid);
     });
+    emit("S %ld %a on_exit_registered aid=%s inc=%d k=%d regpid=%ld", SEQ++, now(), aid.c_str(), inc, kk, mypid);
   } else if (k == "obs_actor") { // A
     if (actors.count(a[0])) {
       auto& x = actors.at(a[0]);
